@@ -275,7 +275,11 @@ func (p *c02) world(r *core.Rand, sched c02Schedule) (*c02World, error) {
 	// output that does not depend on what they draw
 	w.srcs["stateful"] = c02Marker("stateful") + "{{ random(100) < 100 ? 'r' : 'x' }}{{ random() >= 0 ? 'r' : 'x' }}{{ random(3, 9) > 2 ? 'r' : 'x' }}{{ random(['a', 'a']) }}" +
 		"{{ 'now'|date('Y') > 2000 ? 'd' : 'x' }}{{ date('now') ? 'd' : 'x' }}{{ 'abc' matches '/^a.c$/' ? 'm' : 'x' }}{{ '2024-03-05'|date('Y-m-d') }}{{ [3, 1, 2]|sort|join }}{{ 'a,b'|split(',')|length }}{{ v }}"
-	w.entries = append(w.entries, "stateful", "stateful")
+	// membership tests on lists of more than 50 elements (the engine builds a lookup set for those), different lists in
+	// different templates
+	w.srcs["mlists1"] = c02Marker("mlists1") + "{{ 5 in range(1, 60) ? 'Y' : 'N' }}{{ 105 in range(1, 60) ? 'Y' : 'N' }}{{ 'k7' in ks ? 'Y' : 'N' }}{{ 'q7' not in ks ? 'Y' : 'N' }}{% for i in range(1, 3) %}{{ i * 20 in range(1, 70) ? 'y' : 'n' }}{% endfor %}{{ v }}"
+	w.srcs["mlists2"] = c02Marker("mlists2") + "{{ 5 in range(100, 160) ? 'Y' : 'N' }}{{ 105 in range(100, 160) ? 'Y' : 'N' }}{{ 'k7' in qs ? 'Y' : 'N' }}{{ 'q7' not in qs ? 'Y' : 'N' }}{% for i in range(1, 3) %}{{ i * 20 in range(30, 99) ? 'y' : 'n' }}{% endfor %}{{ v }}"
+	w.entries = append(w.entries, "stateful", "stateful", "mlists1", "mlists2", "mlists1", "mlists2")
 	sort.Strings(w.entries)
 	w.regNames = []string{"reg0", "reg1"}
 	// in every other world the loader has the names that the registration clients write (version 0): the first renders
@@ -393,6 +397,11 @@ func (w *c02World) ctx(k int) map[string]interface{} {
 		}
 	}
 	m["v"] = fmt.Sprintf("V%d", k)
+	ks, qs := make([]interface{}, 64), make([]string, 64)
+	for i := range ks {
+		ks[i], qs[i] = fmt.Sprintf("k%d", i), fmt.Sprintf("q%d", i)
+	}
+	m["ks"], m["qs"] = ks, qs
 	m["obj"] = c02Obj{Name: fmt.Sprintf("obj%d", k), Count: 10 + k, Inner: c02Inner{Deep: "deep"}}
 	m["pobj"] = &c02Obj{Name: fmt.Sprintf("pobj%d", k), Count: 20 + k}
 	m["objs"] = []c02Obj{{Name: "a", Count: 1}, {Name: "b", Count: 2}}
